@@ -752,10 +752,15 @@ impl Entry<EntryIncremental, EntryNew> {
                         trace!("Origin process conflict entry");
                         // We are making a new entry!
 
+                        // The conflict entry is a NEW entry created by this transaction: every
+                        // attribute is stamped with this change id. Keeping the change state of
+                        // the losing entry would leave its attributes under change ids the other
+                        // replicas already hold, so the supplier's range filter would strip them
+                        // and the conflict entry would arrive elsewhere without its content.
                         let mut cnf_ent = Entry {
                             valid: EntryInvalid {
                                 cid: cid.clone(),
-                                ecstate: db_cs.clone(),
+                                ecstate: EntryChangeState::new_without_schema(cid, &db_ent.attrs),
                             },
                             state: EntryNew,
                             attrs: db_ent.attrs.clone(),
